@@ -191,7 +191,7 @@ def mod_wild(draw, c):
 
 def mod_ext(draw, c):
     i = c['i']; tp = c['tp']
-    abstract = B(draw); blk = S(draw, ['', '', ' block="extension"', ' final="restriction"'])
+    abstract = B(draw); blk = S(draw, ['', '', ' block="extension"', ' block="restriction"'])
     d = ('<xs:complexType name="base%d"%s%s>%s<xs:sequence><xs:element name="b1" type="xs:string"/></xs:sequence><xs:attribute name="ba" type="xs:int"/></xs:complexType>'
          '<xs:complexType name="ext%d"><xs:complexContent><xs:extension base="%sbase%d"><xs:sequence><xs:element name="e1" type="xs:int" maxOccurs="2"/></xs:sequence><xs:attribute name="ea" type="xs:boolean" use="required"/></xs:extension></xs:complexContent></xs:complexType>'
          '<xs:complexType name="rst%d"><xs:complexContent><xs:restriction base="%sbase%d"><xs:sequence><xs:element name="b1" type="xs:string" fixed="only"/></xs:sequence><xs:attribute name="ba" type="xs:int" use="required"/></xs:restriction></xs:complexContent></xs:complexType>'
@@ -200,12 +200,13 @@ def mod_ext(draw, c):
     T = (tp or '')
     ext = '<m%d xsi:type="%sext%d" ea="true" ba="3"><b1>s</b1><e1>1</e1><e1>2</e1></m%d>' % (i, T, i, i)
     rst = '<m%d xsi:type="%srst%d" ba="3"><b1>only</b1></m%d>' % (i, T, i, i)
-    valid = [rst] + ([ext] if 'extension' not in blk else [])
+    valid = ([rst] if 'restriction' not in blk else []) + ([ext] if 'extension' not in blk else [])
     if not abstract: valid.append('<m%d><b1>s</b1></m%d>' % (i, i))
     invalid = [('extension', '<m%d xsi:type="%sext%d" ba="3"><b1>s</b1><e1>1</e1></m%d>' % (i, T, i, i)), ('restriction', '<m%d xsi:type="%srst%d" ba="3"><b1>other</b1></m%d>' % (i, T, i, i)),
                ('restriction', '<m%d xsi:type="%srst%d"><b1>only</b1></m%d>' % (i, T, i, i)), ('xsi:type', '<m%d xsi:type="xs:int">5</m%d>' % (i, i))]
     if abstract: invalid.append(('abstract', '<m%d><b1>s</b1></m%d>' % (i, i)))
     if 'extension' in blk: invalid.append(('block', ext))
+    if 'restriction' in blk: invalid.append(('block', rst))
     return dict(decls=d, particle=part, valid=valid, invalid=invalid, kinds={'extension', 'restriction', 'xsi:type'} | ({'abstract'} if abstract else set()) | ({'block'} if blk else set()), needs_xs=True)
 
 def mod_simplecontent(draw, c):
